@@ -11,6 +11,10 @@
                                        ("ind", 0x1D) for characteristic c with len value bytes arrived
                                        on bearer b (observed on the client side of the link)
      cb(b, kind, c, len)               the client's notification / indication subscriber was called
+     sub(b, c, kind)                   the client on bearer b registers a callback of that kind in its own table (Client.subscribe called)
+     unsub(b, c) / unsubd(b, c)        Client.unsubscribe of every callback called / returned: the callbacks are dropped
+                                       somewhere in between, before the CCCD write of 0 reaches the server
+     nocb(b, kind, c, len)             the client's ATT layer finished with the PDU that arrived and called nobody
      cfm(b)                            a Handle Value Confirmation arrived at the server on bearer b
      lost(b)                           the harness swallowed the Handle Value Confirmation of the indication
                                        outstanding on bearer b (the server will give up after its time-out)
@@ -36,7 +40,8 @@ GOwed  == Is("pdu") => Queued(Ev.b, Ev.c) # {}                                \*
 GKind  == Is("pdu") => \E t \in Queued(Ev.b, Ev.c) : t.kind = Ev.kind        \* ... of this kind
 GLen   == Is("pdu") => \E t \in Queued(Ev.b, Ev.c) : t.kind = Ev.kind /\ t.len = Ev.len
 GSlot  == Is("pdu") /\ Ev.kind = "ind" => slot[Ev.b] = 0                     \* previous indication confirmed
-GCb    == Is("cb")  => air[Ev.b] # <<>> /\ Head(air[Ev.b]) = EvPdu
+GCb    == Is("cb")  => air[Ev.b] # <<>> /\ Head(air[Ev.b]) = EvPdu /\ Solicited(Ev.b)
+GNoCb  == Is("nocb") => air[Ev.b] # <<>> /\ Head(air[Ev.b]) = EvPdu /\ Unsolicited(Ev.b)   \* a registered subscriber is called
 GCfm   == Is("cfm") => cfmdue[Ev.b] /\ slot[Ev.b] # 0
 GRet   == Is("ret") => /\ Ev.id \in 1..Len(calls) /\ Finished(Ev.id)
                        /\ (Ev.ok = 1 \/ \E t \in tasks : t.call = Ev.id /\ t.st = "failed")
@@ -54,6 +59,10 @@ Act == \/ Is("bearer") /\ SetMtu(Ev.b, Ev.m)
           /\ \E k \in 1..Len(calls) : IF Ev.kind = "ntf" THEN SendNtf(k, Ev.b) ELSE SendInd(k, Ev.b)
           /\ air'[Ev.b][Len(air'[Ev.b])] = EvPdu
        \/ Is("cb") /\ GCb /\ Callback(Ev.b)
+       \/ Is("nocb") /\ GNoCb /\ Discard(Ev.b)
+       \/ Is("sub") /\ LocalSub(Ev.b, Ev.c, Ev.kind)
+       \/ Is("unsub") /\ LocalUnsub(Ev.b, Ev.c)
+       \/ Is("unsubd") /\ LocalGone(Ev.b, Ev.c)
        \/ Is("cfm") /\ Confirm(Ev.b)
        \/ Is("lost") /\ Expire(Ev.b)
        \/ Is("ret") /\ GRet /\ Return(Ev.id)
@@ -70,7 +79,7 @@ Done == /\ l = Len(T) + 1
 Stuck == /\ l <= Len(T)
          /\ ~ENABLED Step
          /\ PrintT(<<"REJECT", tid, l, Ev,
-                     [owed |-> GOwed, kind |-> GKind, len |-> GLen, slot |-> GSlot, cb |-> GCb,
+                     [owed |-> GOwed, kind |-> GKind, len |-> GLen, slot |-> GSlot, cb |-> GCb, nocb |-> GNoCb,
                       cfm |-> GCfm, lost |-> GLost, ret |-> GRet, quiet |-> GQuiet,
                       cccd |-> cccd, slots |-> slot,
                       open |-> {t \in tasks : t.st \in {"queued", "awaiting"}}]>>)
